@@ -74,7 +74,7 @@ impl Encoder for TTYEncoder {
             DecModeGet(mode) => {
                 write!(out, "\x1b[?{}$p", mode as usize)?;
             }
-            CursorTo(pos) => write!(out, "\x1b[{};{}H", pos.row + 1, pos.col + 1)?,
+            CursorTo(pos) => write!(out, "\x1b[{};{}H", pos.row as u128 + 1, pos.col as u128 + 1)?,
             CursorMove { row, col } => {
                 match col.cmp(&0) {
                     Ordering::Greater => write!(out, "\x1b[{}C", col)?,
